@@ -26,6 +26,12 @@ def build(rng, cands, k=1, n_each=100, tagged=None, dialect=None, opts=None, int
     tagged = (k > 1) if tagged is None else tagged
     sims = []
     tags = rng.sample(range(0, 500), k) if tagged else [None]
+    if tagged and (opts or {}).get('lookalike_tags') and rng.random() < 0.35:
+        # a tag is a word: tags that differ only by leading zeros, by case, by an underscore are different tags
+        fam = rng.choice([['7', '07', '007', '0007', '70'], ['a', 'A', 'aA', 'Aa', 'AA'], ['1', '1_', '_1', '__1', '1__'], ['x1', 'X1', 'x01', 'x_1', 'x1x'],
+                          ['0', '00', '000', '0000', '_'], ['conn', 'Conn', 'CONN', 'conn_', 'conn0']])
+        if len(fam) >= k:
+            tags = rng.sample(fam, k)
     if t0 is None:
         t0 = rng.choice([0, 1000, 770203519, rng.randint(0, 4 * 10**9)])
     for i in range(k):
